@@ -31,8 +31,8 @@ def run_suite():
     r = sh("cargo test --workspace --no-fail-fast --offline 2>&1", cwd=WT, env={"CARGO_TARGET_DIR": TGT})
     out = r.stdout
     compiled = "error: could not compile" not in out and "error[E" not in out
-    passed = set(re.findall(r"^test (\S+) \.\.\. ok", out, re.M))
-    failed = set(re.findall(r"^test (\S+) \.\.\. FAILED", out, re.M))
+    passed = set(re.findall(r"^test (\S+)(?: - should panic)? \.\.\. ok", out, re.M))
+    failed = set(re.findall(r"^test (\S+)(?: - should panic)? \.\.\. FAILED", out, re.M))
     return compiled, passed, failed, out
 
 
